@@ -270,7 +270,7 @@ def run():
     roots = e2ekit.Roots()
     e2ekit.small_batches(BATCH, THRESHOLD)
     try:
-        paths = g.transition_cover(rng)
+        paths = g.transition_cover(rng, tail=2)
         r.notes["cover_paths"] = len(paths)
         if not thorough and len(paths) > 1500:
             paths = rng.sample(paths, 1500)
@@ -293,7 +293,7 @@ def run():
         if len(g3.edges) < 300:
             raise core.MachineryError("PreKeys (batch 3) edge dump too small (%d)" % len(g3.edges))
         e2ekit.small_batches(3, 2)
-        p3 = g3.transition_cover(rng)
+        p3 = g3.transition_cover(rng, tail=2)
         r.notes["cover_paths_batch3"] = len(p3)
         p3 += g3.random_walks(600 if thorough else 100, 10, rng)
         for p in p3:
